@@ -3,6 +3,7 @@ package main
 import (
 	"bytes"
 	"fmt"
+	"reflect"
 	"regexp"
 	"strings"
 
@@ -358,6 +359,25 @@ func oracleC02(r *Rng, n int, thorough bool, seeds []string) *OracleResult {
 				what = "the decoded message changed when the bytes it was decoded from were overwritten: " + firstDiff(s1, s4)
 				return
 			}
+			// the decoded message is the caller's: every octet of it may be written to in
+			// place, and what is decoded afterwards from the same bytes is still the message
+			// that was encoded (the DHCPv6 side of seeded changes C01-15 / C04-17: decoded
+			// values sharing one package-level slice, an intern table)
+			{
+				wire := m.ToBytes()
+				if victim, err := dhcpv6.FromBytes(append([]byte{}, wire...)); err == nil {
+					scribbleBytes(reflect.ValueOf(victim), 0)
+					m3, err := dhcpv6.FromBytes(append([]byte{}, wire...))
+					if err != nil {
+						what = "decode after an earlier decoded message was written to in place failed: " + err.Error()
+						return
+					}
+					if s5 := stripLabelOriginals(sxMsg6(m3)); s5 != s1 {
+						what = "after every octet of an earlier decoded message was overwritten in place, decoding the same bytes gives another message: " + firstDiff(s1, s5)
+						return
+					}
+				}
+			}
 			// a DECODED message edited in place is a message like any other: its
 			// encoding decodes to it (seeded change C02-8: bytes cached at decode time
 			// and re-emitted although the encapsulated message was edited)
@@ -647,4 +667,41 @@ func optsTooLong6(os dhcpv6.Options) bool {
 		}
 	}
 	return false
+}
+
+// scribbleBytes overwrites every settable octet reachable from v (byte slices and byte
+// arrays behind pointers, interfaces, slices, maps of pointers, exported struct fields)
+// with 0xa5, leaving lengths and structure alone.
+func scribbleBytes(v reflect.Value, depth int) {
+	if depth > 40 || !v.IsValid() {
+		return
+	}
+	switch v.Kind() {
+	case reflect.Ptr, reflect.Interface:
+		if !v.IsNil() {
+			scribbleBytes(v.Elem(), depth+1)
+		}
+	case reflect.Slice, reflect.Array:
+		if v.Type().Elem().Kind() == reflect.Uint8 {
+			for i := 0; i < v.Len(); i++ {
+				if e := v.Index(i); e.CanSet() {
+					e.SetUint(0xa5)
+				}
+			}
+			return
+		}
+		for i := 0; i < v.Len(); i++ {
+			scribbleBytes(v.Index(i), depth+1)
+		}
+	case reflect.Map:
+		for _, k := range v.MapKeys() {
+			scribbleBytes(v.MapIndex(k), depth+1)
+		}
+	case reflect.Struct:
+		for i := 0; i < v.NumField(); i++ {
+			if v.Type().Field(i).IsExported() {
+				scribbleBytes(v.Field(i), depth+1)
+			}
+		}
+	}
 }
